@@ -67,6 +67,27 @@ example :
     NoWrap s.ring ∧ s.ring.outs = [(0, 7)] ∧ s.ring.drop.2 = [(0, 8)] ∧ s.pu = none ∧ s.po = none := by
   refine ⟨Or.inl (by decide), by decide, by decide, by decide, by decide⟩
 
+/-- the wrap-around schedule: capacity 3 on a 2-bit machine word (`W = 4`); three push/pop pairs bring
+`tail` to 3, the fourth push writes slot `3 % 3 = 0` and wraps `tail` to 0, the fifth push then
+computes slot `0 % 3 = 0` again although that slot still holds the fourth value -/
+def wrapSchedule : List RLabel :=
+  let push (v : Val) : List RLabel := List.replicate 5 (.push v)
+  let pop : List RLabel := List.replicate 5 .pop
+  push (0, 1) ++ pop ++ push (0, 2) ++ pop ++ push (0, 3) ++ pop ++ push (0, 4) ++ push (0, 5)
+
+/-- **slot_safety_needs_nowrap_witness** (KNOWN FINDING `sched:wrap-npot:*`): without the `NoWrap`
+hypothesis `ring_slot_safety` is FALSE — the full statement "for all capacities, word sizes and
+schedules no slot is overwritten or read uninitialised" fails once the indices wrap, for a capacity
+that does not divide the word modulus, even with a single producer and a single consumer.
+(`ring_slot_safety` is the part that holds: power-of-two capacities always, any capacity for the
+first `W` pushes.) -/
+theorem slot_safety_needs_nowrap_witness :
+    ¬ (∀ (cap W : Nat) (ls : List RLabel), 0 < cap → cap < W → (rrun (RSys.init cap W) ls).ring.bad = []) := by
+  intro h
+  have := h 3 4 wrapSchedule (by decide) (by decide)
+  revert this
+  decide
+
 /-! ### the track queue: any number of producers (cloned / shared handles), one consumer, `stop()` -/
 
 /-- the initial state of the current code: `sample_track(kind, cap)` on a machine with word modulus `W` -/
@@ -166,6 +187,27 @@ theorem eos_only_when_drained (cap W : Nat) (h0 : 0 < cap) (h1 : cap < W) (ls : 
     have := hr.logLen
     simpa [St.puView, hnh, pendW] using this
   rw [hr.outsEq, hd.2, ← hlen, List.take_length]
+
+/-- **no_lost_wakeup_after_close** (drain_then_eos, liveness ingredient; needs no `NoWrap`): in every
+reachable state in which every source handle has been dropped and the closing thread has finished
+(so nothing will ever notify again), the consumer is NOT blocked — neither on `pop_lock` nor in
+`notified.await` — so each of its steps makes progress through `recv`, whose only exits are a sample
+or end-of-stream (`eos_only_when_drained` says what end-of-stream then means). A bound on the number
+of consumer steps to the next `recv` result is not proved (see NOTES). -/
+theorem no_lost_wakeup_after_close (cap W : Nat) (ls : List Label) :
+    let s := run (init cap W) ls
+    s.closed = true → (∀ i, s.pp i = .none ∨ s.pp i = .reserved ∨ s.pp i = .gone) →
+      blocked s (.cons false) = false := by
+  intro s hc hg
+  exact not_blocked_after_close s (run_WInv _ ls ⟨LInv.init cap W, NInv.init cap W⟩) hc hg
+
+/-- non-vacuity of `no_lost_wakeup_after_close`: the close lands exactly in the old lost-wake-up window
+(after the consumer read `source_closed = false`), and the consumer's next step is enabled -/
+example :
+    let s := run (init 1 (2 ^ 64)) [.cons true, .cons false, .cons false, .cons false, .cons false, .cons false,
+      .cons false, .prod 0 (some .dropSrc), .prod 0 none, .prod 0 none, .prod 0 none]
+    s.closed = true ∧ s.pp 0 = .gone ∧ s.cp = .await1 0 ∧ blocked s (.cons false) = false := by
+  decide
 
 /-- non-vacuity: three producers (two clones), a full capacity-1 queue with drop-oldest, a consumer:
 the hypotheses hold and the run delivers a sample -/
